@@ -1,3 +1,4 @@
+import Autog.Lemmas.Adj
 import Autog.Lemmas.BlockWide
 import Autog.Json
 import Autog.Model.Pre
@@ -71,6 +72,9 @@ def tfunLayout (cfg : Cfg) (es : InEdges) (comps : List (List (Int × G))) (real
       | some a, some b =>
         out := out ++ [cmpG "T:phase1" (phase1 cfg.p1 a) b]
         out := out ++ [("K:edgesWF", edgesWFb a && edgesWFb b, "an out-list points outside the node store")]
+        -- adjacency consistency of the component phase 1 receives and of what it returns (proved for the populated graph, self-loop
+        -- stripping, the two-cycle pre-pass and reversals; the sub-graph extraction for several components is covered here)
+        out := out ++ [("K:adj", adjLb a && adjLb b, "In/Out lists and edge store disagree")]
       | _, _ => pure ()
   for (c, ci) in comps.zipIdx do
     -- phase 2: LongestPath exactly; for both layerers the layer list is `buildLayers` of the node layers
